@@ -422,6 +422,89 @@ theorem ir_strict_order (a b c : IR) :
   · rw [← decide_not]; exact decide_eq_decide.mpr (by omega)
   · trivial
 
+/-- THE TIE IS COMPLETE: every operator body the translator looks for in the headers was found and understood
+(nothing fell back to its canonical form unread).  `Gen.unparsed` is regenerated on every run; a body that leaves
+the translator's grammar makes this obligation fail, and the check then searches for a failing input. -/
+theorem translator_read_all_bodies : Gen.unparsed = [] := rfl
+
+/-- ALL INTEGRAL TYPES AND BOUNDS: as the machine evaluates them for a `bits` wide integral type — whatever the
+width, and however far apart the two values are (up to the whole extent of the type, where the difference of the two
+iterators no longer fits `difference_type`) — the six comparisons of the IntegralRangeIterator are the order of the
+positions and coincide with the exact-integer comparisons all the other `ir_*` theorems speak about.  (The bodies
+are re-read from rangeutilities.hh; a body that derives the order from `*this - other` or from a value cast to
+`difference_type` is translated with the wrapping `E.wsub`, and this theorem no longer compiles.) -/
+theorem ir_rel_ops_all_widths (bits : Nat) (from_ : Int) (a b : IR) :
+    IR.ltW bits a b = decide (a.value - from_ < b.value - from_) ∧
+    IR.leW bits a b = decide (a.value - from_ ≤ b.value - from_) ∧
+    IR.gtW bits a b = decide (a.value - from_ > b.value - from_) ∧
+    IR.geW bits a b = decide (a.value - from_ ≥ b.value - from_) ∧
+    IR.eqW bits a b = decide (a.value - from_ = b.value - from_) ∧
+    IR.neW bits a b = decide (a.value - from_ ≠ b.value - from_) ∧
+    IR.ltW bits a b = IR.lt a b ∧ IR.leW bits a b = IR.le a b ∧ IR.gtW bits a b = IR.gt a b ∧
+    IR.geW bits a b = IR.ge a b ∧ IR.eqW bits a b = IR.eq a b ∧ IR.neW bits a b = IR.ne a b := by
+  refine ⟨?_, ?_, ?_, ?_, ?_, ?_, rfl, rfl, rfl, rfl, rfl, rfl⟩
+  · rw [IR.ltW_spec]; exact decide_eq_decide.mpr (by omega)
+  · rw [IR.leW_spec]; exact decide_eq_decide.mpr (by omega)
+  · rw [IR.gtW_spec]; exact decide_eq_decide.mpr (by omega)
+  · rw [IR.geW_spec]; exact decide_eq_decide.mpr (by omega)
+  · rw [IR.eqW_spec]; exact decide_eq_decide.mpr (by omega)
+  · rw [IR.neW_spec]; exact decide_eq_decide.mpr (by omega)
+
+-- non-vacuity: IntegralRange<unsigned char>(0,200), IntegralRange<int>(-2e9,2e9): begin() < end(), although the
+-- machine difference end() - begin() is negative
+example : IR.ltW 8 ⟨0⟩ ⟨200⟩ = true ∧ IR.gtW 8 ⟨200⟩ ⟨0⟩ = true ∧ IR.diffW 8 ⟨200⟩ ⟨0⟩ = -56 ∧
+    IR.ltW 32 ⟨-2000000000⟩ ⟨2000000000⟩ = true ∧ IR.diffW 32 ⟨2000000000⟩ ⟨-2000000000⟩ = -294967296 ∧
+    IR.geW 8 ⟨-128⟩ ⟨127⟩ = false := by decide
+
+/-- what the machine difference is when `difference_type` cannot hold the true one: the true difference shifted by
+a multiple of `2^bits` into the range of the signed type — for ALL values (complements `ir_diff_machine_exact`) -/
+theorem ir_diff_machine_wraps (bits : Nat) (hb : 0 < bits) (a b : IR) :
+    (∃ k : Int, IR.diffW bits a b = (a.value - b.value) + k * 2 ^ bits) ∧
+    -(2 ^ (bits - 1)) ≤ IR.diffW bits a b ∧ IR.diffW bits a b < 2 ^ (bits - 1) := by
+  unfold IR.diffW toSigned
+  rw [IR.diff_spec]
+  have hM := two_pow_split bits hb
+  have hH : (0 : Int) < 2 ^ (bits - 1) := Int.pow_pos (by omega)
+  generalize a.value - b.value = d
+  have h0 : 0 ≤ d % 2 ^ bits := Int.emod_nonneg _ (by omega)
+  have h1 : d % 2 ^ bits < 2 ^ bits := Int.emod_lt_of_pos _ (by omega)
+  have hd : d = 2 ^ bits * (d / 2 ^ bits) + d % 2 ^ bits := (Int.mul_ediv_add_emod d (2 ^ bits)).symm
+  generalize d / 2 ^ bits = q at hd
+  generalize d % 2 ^ bits = m at *
+  generalize (2 : Int) ^ (bits - 1) = H at *
+  generalize (2 : Int) ^ bits = M at *
+  by_cases hm : m < H
+  · rw [if_pos hm]
+    exact ⟨⟨-q, by rw [hd, Int.neg_mul, Int.mul_comm q M]; omega⟩, by omega, by omega⟩
+  · rw [if_neg hm]
+    exact ⟨⟨-q - 1, by rw [hd, Int.sub_mul, Int.neg_mul, Int.mul_comm q M]; omega⟩, by omega, by omega⟩
+
+example : IR.diffW 8 ⟨200⟩ ⟨0⟩ = (200 - 0) + (-1) * 2 ^ 8 := by decide
+
+/-- PARTIAL (finding F1 of round four).  Full statement wanted by the property: for every width and ALL values,
+`NewF.lt (irBaseW bits) a b = decide (a.value < b.value)` (and `<= > >=`).  The new IteratorFacade derives
+`< <= > >=` from the difference of the base iterators (`(it1 - it2) < 0`), and for a transformed range over an
+IntegralRange that difference is the machine difference: the comparisons are the position order exactly when
+`difference_type` can hold the distance; `==`/`!=` hold always.  Beyond that distance they are inverted (see the
+example below: `transformedRangeView(IntegralRange<unsigned char>(0,200), f)`: `begin() < end()` is false). -/
+theorem nf_over_integral_range_rel_ops_partial (bits : Nat) (hb : 0 < bits) (a b : IR) :
+    (NewF.eq (irBaseW bits) a b = decide (a.value = b.value) ∧ NewF.ne (irBaseW bits) a b = decide (a.value ≠ b.value)) ∧
+    (-(2 ^ (bits - 1)) ≤ a.value - b.value → a.value - b.value < 2 ^ (bits - 1) →
+      NewF.lt (irBaseW bits) a b = decide (a.value < b.value) ∧ NewF.le (irBaseW bits) a b = decide (a.value ≤ b.value) ∧
+      NewF.gt (irBaseW bits) a b = decide (a.value > b.value) ∧ NewF.ge (irBaseW bits) a b = decide (a.value ≥ b.value) ∧
+      NewF.diff (irBaseW bits) a b = a.value - b.value) := by
+  refine ⟨⟨?_, ?_⟩, ?_⟩
+  · show IR.eqW bits a b = _; rw [IR.eqW_spec]
+  · rw [NewF.ne_spec]; show (!IR.eqW bits a b) = _; rw [IR.eqW_spec, ← decide_not]
+  · intro h1 h2
+    have hd : NewF.diff (irBaseW bits) a b = a.value - b.value := (ir_diff_machine_exact bits hb a b h1 h2).1
+    rw [NewF.lt_spec, NewF.le_spec, NewF.gt_spec, NewF.ge_spec, hd]
+    refine ⟨?_, ?_, ?_, ?_, rfl⟩ <;> exact decide_eq_decide.mpr (by omega)
+
+-- non-vacuity, and the counterexample that keeps the theorem partial
+example : NewF.lt (irBaseW 8) ⟨0⟩ ⟨100⟩ = true ∧ NewF.ge (irBaseW 32) ⟨5⟩ ⟨5⟩ = true := by decide
+example : NewF.lt (irBaseW 8) ⟨0⟩ ⟨200⟩ = false ∧ NewF.gt (irBaseW 8) ⟨0⟩ ⟨200⟩ = true := by decide
+
 section indexed
 variable {B : Type} {b : Base B} {pos : B → Int} {same : B → B → Prop}
 
